@@ -297,6 +297,9 @@ func (r *Run) atomOne(op atomOp, st *atomStats, uuidSeed *int64) *Violation {
 	w := r.W
 	*uuidSeed++
 	seed := *uuidSeed
+	// the faulted attempts take virtual time (ticks); no stored deadline may fall between the
+	// clean run and the final retry, or the two would legitimately differ
+	r.nudge(5 * time.Second)
 	// ---- 1. clean run on a clone, counting events
 	preFull, err := w.Dump(false)
 	if err != nil {
